@@ -82,22 +82,29 @@ func body(r *ev.Run) {
 	r.Require("orphan_headers_left_out", 30)
 	r.Require("negative_versions_roundtripped", 100)
 	r.Require("timestamps_beyond_2038_roundtripped", 100)
-	r.Require("refusals_observed", int64(r.Pick(250, 8000)))
-	r.Require("second_starts_after_refusal", int64(r.Pick(250, 8000)))
+	r.Require("refusals_observed", int64(r.Pick(250, 6000)))
+	r.Require("second_starts_after_refusal", int64(r.Pick(250, 6000)))
 	r.Require("nonempty_untouched_checks", int64(r.Pick(40, 1000)))
-	r.Require("control_imports_equal", int64(r.Pick(4, 60)))
+	r.Require("control_imports_equal", int64(r.Pick(4, 36)))
 
 	nRT := r.Pick(60, 1500)
+	slot := 0
 	for i := 0; i < nRT; i++ {
 		caseID := fmt.Sprintf("rt/%d", i)
-		r.Do(caseID, func() { e.roundTrip(caseID, i) })
+		if r.MineIdx(caseID, slot) {
+			r.Exec(caseID, func() { e.roundTrip(caseID, i) })
+		}
+		slot++
 	}
-	nStores := r.Pick(4, 64)
-	parts := r.Pick(6, 2)
+	nStores := r.Pick(4, 36)
+	parts := r.Pick(6, 4)
 	for k := 0; k < nStores; k++ {
 		for p := 0; p < parts; p++ {
 			unit := fmt.Sprintf("cor/s%d/p%d", k, p)
-			r.Do(unit, func() { e.corruptionUnit(unit, k, p, parts) })
+			if r.MineIdx(unit, slot) {
+				r.Exec(unit, func() { e.corruptionUnit(unit, k, p, parts) })
+			}
+			slot++
 		}
 	}
 }
@@ -306,6 +313,12 @@ type importResult struct {
 // given checkpoints.
 func (e *env) importInto(dbName, file string, cps []chaincfg.Checkpoint) (res importResult) {
 	config.Checkpoints = cps
+	// the import prints "Drop Value/Create Value" lines with fmt.Printf; keep them off the verdict output
+	if null, err := os.OpenFile(os.DevNull, os.O_WRONLY, 0); err == nil {
+		old := os.Stdout
+		os.Stdout = null
+		defer func() { os.Stdout = old; _ = null.Close() }()
+	}
 	defer func() {
 		if p := recover(); p != nil {
 			res.panic = p
